@@ -38,6 +38,17 @@ class ReplayFactory:
     def bytes(self, name, n, lo=0, hi=255):
         return bytes.fromhex(self._get(name)) if n else b""
 
+    def assume(self, cond):
+        if not cond:
+            raise AssertionError("replayed values violate a harness assumption")
+
+    def distinct(self, idents):
+        if len(set(idents)) != len(idents):
+            raise AssertionError("replayed identifiers are not pairwise distinct")
+
+    def ident(self, name, size, zero_free_pos=None):
+        return bytes.fromhex(self._get(name))
+
     def pick(self, name, lo, hi):
         return int(self._get(name))
 
